@@ -21,7 +21,7 @@ CHECKS = {
     'C03': ('translation_validation',
             'bounded symbolic evaluation (z3, domain compaction) of the unfolded recursion SQL, and of the iterative plan executed by the real concertina_lib with a symbolic sql_runner, vs depth+1 reference applications of the rules from empty relations; sat models replayed on real SQLite',
             'For each catalogue recursive program and every graph with <=K edges z3 proves result == T^(depth+1)(empty) (self recursion, flat and iterative unfolding, depths 1,2,3,8,21,22,24) or, for vertical unfolding of a cut cycle, T^(depth+1)(empty) <= result <= lfp.',
-            'Trusted: lv/sqlsem.py, lv/refsem.py, z3. Upper containment bound checked against T^(cycle*(depth+1)) and confirmed against a concretely computed least fixpoint on replay. Outside: diamond mode, stop signals inside compiled recursion, depth infinity.',
+            'Trusted: lv/sqlsem.py, lv/refsem.py, z3. Upper containment bound checked against T^(cycle*(depth+1)) and confirmed against a concretely computed least fixpoint on replay. Outside: diamond mode, stop signals inside compiled recursion, depth infinity, execution of an iterative plan as a plain script without concertina_lib (logica.py run on SQLite; performs the ignition steps only, upstream TODO).',
             'DESIGN.md §2.1, §3 C03', 'sqlsmt'),
     'C04': ('translation_validation',
             'metamorphic: program with functor applications vs the program substituted by hand on the catalogue AST, both compiled by the real compiler; equivalence of the emitted SQL decided by z3 over a bounded symbolic database; sat models replayed on real SQLite',
